@@ -17,7 +17,7 @@ from . import common
 from .common import log, ToolError
 
 EXE = "pvh_pipeline"
-RUN_FORMAT = 11     # bump when the way cases are assembled / rendered in this file changes
+RUN_FORMAT = 12     # bump when the way cases are assembled / rendered in this file changes
 THREADS = os.environ.get("PVH_THREADS", "6")
 TLC_WORKERS = int(os.environ.get("PIPELINE_TLC_WORKERS", "4"))
 
@@ -55,7 +55,9 @@ def assert_same_tree(state0):
 def harness_state():
     h = hashlib.sha1()
     base = os.path.join(common.VERIF, "harness", "src")
-    for rel in ["bin/pvh_pipeline.rs", "pipeline/drive.rs", "pipeline/gen.rs", "flat.rs"]:
+    for rel in ["bin/pvh_pipeline.rs", "pipeline/drive.rs", "pipeline/gen.rs", "flat.rs",
+                # the generators of other checks whose programs are cross-fed
+                "machine/gen.rs", "machine/render.rs", "bin/pvh_machine.rs", "modules/perms.rs", "bin/pvh_modules.rs"]:
         h.update(open(os.path.join(base, rel), "rb").read())
     for rel in ["PipelineTokens.tla", "MC_Pipeline.tla", "Pipeline.tla", "MC_PipelineWide.tla", "PipelineShapes.tla",
                 "FlatBody.tla", "Placement.tla", "MC_Placement.tla", "VarScope.tla", "MC_VarScope.tla"]:
@@ -373,6 +375,8 @@ def _render_sym(cell):
         t = leaf + head
     else:
         t = head
+    if cell.get("twin", "none") != "none":
+        t = "%s target: i32 = 3;\n" % cell["twin"] + t
     wrapper = "pub fn wrapper(x: i32) -> i32\n{\n\treturn: %s\n}\n" % ("x" if kind == "unused" else "target(x)")
     filler = "pub fn %s_f(x: i32) -> i32\n{\n\treturn: x * 2\n}\nfn shared(x: i32) -> i32\n{\n\treturn: x\n}\n"
     if place == "m1":
@@ -485,7 +489,8 @@ def render_shape(case, idx):
         origin = "names %s/%s" % (cell["kind"], cell["link"])
     else:
         mods = _render_sym(cell)
-        origin = "sym %s/%s/%s" % (cell["flags"].replace(" ", "+") or "private", cell["kind"], cell["place"])
+        origin = "sym %s/%s/%s%s" % (cell["flags"].replace(" ", "+") or "private", cell["kind"], cell["place"],
+                                     "" if cell.get("twin", "none") == "none" else "/twin=" + cell["twin"].replace(" ", "+"))
     out = {"id": "shape%d" % idx, "kind": "shape:" + fam, "wasm": wasm, "mods": mods, "origin": origin}
     if fam == "chain":
         out["fault"] = fault
